@@ -16,6 +16,8 @@ def signature(recs, k, mon):
     if "what" in a:
         out["what"] = a["what"]
     t = a.get("t")
+    if isinstance(t, str):
+        out["topic_kind"] = "p2p" if t.startswith("p") else "grp" if t.startswith("g") else t
     if t in pre["st"]["topics"] and t in pre["st"]["msgs"]:
         mx = max([m["seq"] for m in pre["st"]["msgs"][t]] or [0])
         out["rowAhead"] = pre["st"]["topics"][t]["seq"] > mx
